@@ -127,9 +127,9 @@ func c05Lifecycle(r *R) {
 	ops := make([][]op, nSenders)
 	var odesc []string
 	for i := 0; i < nOps; i++ {
-		o := op{kind: r.Choose(9), target: paths[r.Choose(len(paths))]}
+		o := op{kind: r.Choose(10), target: paths[r.Choose(len(paths))]}
 		ops[i%nSenders] = append(ops[i%nSenders], o)
-		odesc = append(odesc, fmt.Sprintf("%s->%s", []string{"tell", "tell", "panic", "Failed", "become", "bad-prelaunch-spawn", "sched-fail", "kill-child-then-fail", "kill"}[o.kind], o.target))
+		odesc = append(odesc, fmt.Sprintf("%s->%s", []string{"tell", "tell", "panic", "Failed", "become", "bad-prelaunch-spawn", "sched-fail", "kill-child-then-fail", "kill", "watch-another-actor"}[o.kind], o.target))
 	}
 	desc["ops"] = odesc
 	r.Sample(desc)
@@ -194,6 +194,14 @@ func c05Lifecycle(r *R) {
 						failOnChildKilled[p.Path] = true
 						cfgMu.Unlock()
 						ctx.Kill(kids[0], false, "scripted")
+					}))
+				case 9:
+					// the target watches some other actor of the tree: when the watcher dies first, the watched actor's
+					// termination notice still finds the dead watcher's mailbox (through the reference it registered with)
+					other := w.RefBy("create", nil, paths[r.Choose(len(paths))])
+					w.Tell(ref, w.NewCmd(name, k, func(ctx vivid.ActorContext, p *Probe) {
+						r.Count("watch")
+						ctx.Watch(other)
 					}))
 				case 8:
 					if r.Chance(40) {
